@@ -58,6 +58,10 @@ const TWO_PUBLISH: [u8; 6] = [5, 0x12, 0x00, 0x12, 0x01, 0x00];
 const CONTROL_3: [u8; 4] = [3, 0x1a, 0x01, 0x00];
 const SUBS_AND_CONTROL: [u8; 6] = [5, 0x0a, 0x00, 0x1a, 0x01, 0x00];
 const EMPTY: [u8; 1] = [0];
+// unknown top-level fields of non-length-delimited wire types (a newer peer may send them; prost
+// skips them): field 4 varint, field 11 fixed32, next to one publish entry
+const UNKNOWN_VARINT_AND_PUBLISH: [u8; 5] = [4, 0x20, 0x01, 0x12, 0x00];
+const UNKNOWN_FIXED32: [u8; 6] = [5, 0x5d, 1, 2, 3, 4];
 
 #[kani::proof]
 #[kani::unwind(20)]
@@ -83,6 +87,20 @@ fn c31_q_control_followed_by_one_byte() {
 fn c31_q_partial_publish() {
     partial_frame::<6, 3>(TWO_PUBLISH)
 }
+#[kani::proof]
+#[kani::unwind(20)]
+#[kani::stub(alloc::fmt::format, crate::stubs::empty_format)]
+fn c31_q_unknown_varint_field_is_skipped() {
+    complete_frame::<5, 1>(UNKNOWN_VARINT_AND_PUBLISH, 1, 0)
+}
+#[cfg(feature = "thorough")]
+#[kani::proof]
+#[kani::unwind(20)]
+#[kani::stub(alloc::fmt::format, crate::stubs::empty_format)]
+fn c31_t_unknown_fixed32_field_is_skipped() {
+    complete_frame::<6, 0>(UNKNOWN_FIXED32, 0, 0)
+}
+
 /// All but the last byte of a frame have arrived.
 #[kani::proof]
 #[kani::unwind(20)]
